@@ -13,7 +13,9 @@ import random
 import traceback
 from collections import Counter
 
-REPO_ROOT = "/repo"
+# RLSIM_REPO lets the machinery run against a scratch worktree of the repository (seeded-change sweeps);
+# the registered checks always use /repo itself
+REPO_ROOT = os.path.abspath(os.environ.get("RLSIM_REPO", "/repo"))
 VERIF_ROOT = os.path.dirname(os.path.dirname(os.path.abspath(__file__)))
 
 
